@@ -82,6 +82,7 @@ def gen_case(rng, i, tier):
         j = rng.choice([0, 0, len(case["trace"]) - 1])
         case["trace"][j] = [case["trace"][j][0] + rng.choice([3.0, 8.0]), case["trace"][j][1] - 2.0]
     case["ops"] = gen.gen_history(rng, len(case["trace"]), cfg["width"], allow_cwd=False, max_ops=3)
+    gen.add_pre_trace(rng, case)   # the matcher object may have matched another trace before / matches one afterwards
     case["handler"] = rng.choice(["null", "null", "stream"])
     # the map backend is part of "a match": a fifth of the integer-labelled cases runs on SqliteMap (built at the same level)
     ints = all(isinstance(l, int) for l, _ in case["map"]["nodes"]) and not case["map"].get("linked")
